@@ -157,7 +157,7 @@ func init() {
 		Cases: func(master uint64, tier string) []Case {
 			n := 24
 			if tier == "thorough" {
-				n = 5000
+				n = 2000
 			}
 			return seqCases(master, n, func(int) int { return WindowVariants })
 		},
